@@ -1,4 +1,135 @@
-From GixV.Base Require Import Bytes Outcome.
-From GixV.C53 Require Import Model Spec.
-Example placeholder : resolve [] [] [] = ([], []).
-Proof. reflexivity. Qed.
+(* C53 — Mailmap resolution agrees with git.  Statements only; proofs are in Proofs*.v.
+   Model.v = gix-mailmap (after fix 44459dddd), Spec.v = git 2.39 mailmap.c. *)
+From Coq Require Import Arith List.
+From GixV.Base Require Import Bytes BytesFacts Outcome.
+From GixV.C53 Require Import Model Spec ProofsSearch ProofsVec ProofsMap ProofsTop.
+Import ListNotations.
+
+(* 1. core's binary_search_by (the Rust 1.95 loop) on any probe that is Less on [0,p), Equal on
+      [p,q), Greater on [q,len): Ok(q-1) if an Equal element exists, else Err(p). *)
+Theorem binary_search_correct :
+  forall (g : nat -> comparison) (p q len : nat),
+    p <= q <= len ->
+    (forall i, i < p -> g i = Lt) -> (forall i, p <= i < q -> g i = Eq) ->
+    (forall i, q <= i < len -> g i = Gt) ->
+    bsearch g len = if Nat.ltb p q then inl (q - 1) else inr p.
+Proof. exact bsearch_spec. Qed.
+
+(* 2. On a vector strictly sorted by ASCII-case-folded key whose keys are valid UTF-8, the binary
+      search with EncodedString::cmp_ref is exactly the lookup by case-insensitive equality. *)
+Theorem sorted_vector_search_is_case_insensitive_lookup :
+  forall (V : Type) (key : V -> bytes) (l : list V) (t : bytes),
+    sorted key l -> all_utf8 key l -> is_utf8 t = true ->
+    match vsearch key l t with
+    | inl pos => exists e, nth_error l pos = Some e /\ vfind key l t = Some e
+    | inr _ => vfind key l t = None
+    end.
+Proof. exact @vsearch_find. Qed.
+
+(* 3. insert-or-update through the binary search keeps the vector strictly sorted and acts on the
+      lookup like an update of a finite map keyed by the folded key. *)
+Theorem sorted_vector_upsert :
+  forall (V : Type) (key : V -> bytes) (l : list V) (k : bytes) (f : V -> V) (v : V),
+    sorted key l -> all_utf8 key l -> is_utf8 k = true ->
+    (forall x, key (f x) = key x) -> key v = k ->
+    let l' := upsert key l k f v in
+    sorted key l' /\ all_utf8 key l'
+    /\ (forall t, vfind key l' t =
+          if keqb k t then Some (match vfind key l k with Some x => f x | None => v end)
+          else vfind key l t)
+    /\ (forall x, In x l' -> In (key x) (map key l) \/ key x = k).
+Proof. exact @upsert_spec. Qed.
+
+(* 4. Every entry the parser produces maps a name or an email, so the assert! in Snapshot::merge
+      cannot fire and Snapshot::from_bytes is total (no panic) on every byte string. *)
+Theorem parsed_entries_are_well_formed :
+  forall line en, parse_line line = Ok en -> well_formed en = true.
+Proof. exact parse_line_wf. Qed.
+Theorem from_bytes_never_panics : forall buf, exists s, from_bytes buf = Ok s.
+Proof. exact from_bytes_total. Qed.
+
+(* 5. Snapshot::merge refines git's add_mapping: after any list of entries with UTF-8 keys the two
+      levels of sorted vectors answer every (case-insensitive) lookup like git's two string_lists. *)
+Theorem snapshot_refines_git_map :
+  forall ens, Forall en_ok ens ->
+    exists s, snapshot_new ens = Ok s /\ snap_rel s (git_map_of ens).
+Proof.
+  intros ens H. destruct (merge_rel ens [] [] snap_rel_nil H) as (s & E & R & _).
+  exists s. split; assumption.
+Qed.
+Theorem git_add_mapping_of_entry :
+  forall m en, g_add_mapping m (entry_args en) = g_put_entry m en.
+Proof. exact add_mapping_entry. Qed.
+
+(* 6. resolve vs. git's map_user, for EVERY list of entries and identity with UTF-8 keys:
+      the names are equal; the emails are equal, or git left the email alone and gix returns the
+      mailmap's spelling of the same email (equal up to ASCII case). *)
+Theorem resolve_is_git_up_to_email_case :
+  forall ens name email,
+    Forall en_ok ens -> is_utf8 name = true -> is_utf8 email = true ->
+    exists s, snapshot_new ens = Ok s /\
+      let r := resolve s name email in
+      let g := g_map_user (git_map_of ens) name email in
+      fst r = fst g
+      /\ (snd r = snd g
+          \/ (snd g = email /\ fold_case (snd r) = fold_case email /\ In (snd r) (map old_email ens))).
+Proof. exact resolve_vs_git. Qed.
+
+(* 7. ... hence exact agreement unless the mailmap spells the looked-up email in another case *)
+Theorem resolve_is_git_except_known :
+  forall ens name email,
+    Forall en_ok ens -> is_utf8 name = true -> is_utf8 email = true ->
+    email_case_exact ens email ->
+    exists s, snapshot_new ens = Ok s /\ resolve s name email = g_map_user (git_map_of ens) name email.
+Proof. exact resolve_is_git. Qed.
+
+(* 8. the full statement is false of the code: the three known classes at this level *)
+Definition e_simple (n e : bytes) : entry := mkEntry (Some n) None None e.
+
+(* class email-case-normalized *)
+Theorem resolve_is_git_refuted_email_case :
+  exists ens name email s, Forall en_ok ens /\ is_utf8 name = true /\ is_utf8 email = true
+    /\ snapshot_new ens = Ok s
+    /\ resolve s name email <> g_map_user (git_map_of ens) name email.
+Proof.
+  exists [e_simple (bs "Joe") (bs "a@x")], (bs "A"), (bs "A@X"), [mkEE (Some (bs "Joe")) None (bs "a@x") []].
+  split; [repeat constructor|]. split; [reflexivity|]. split; [reflexivity|]. split; [reflexivity|].
+  vm_compute. discriminate.
+Qed.
+
+(* class non-utf8-identity: keys that are not UTF-8 are compared case-sensitively *)
+Theorem resolve_is_git_refuted_non_utf8 :
+  exists ens name email s, snapshot_new ens = Ok s
+    /\ resolve s name email <> g_map_user (git_map_of ens) name email.
+Proof.
+  exists [e_simple (bs "Joe") (bs "A" ++ [xff])], (bs "A"), (bs "a" ++ [xff]),
+         [mkEE (Some (bs "Joe")) None (bs "A" ++ [xff]) []].
+  split; [reflexivity|]. vm_compute. discriminate.
+Qed.
+
+(* class non-utf8-key-in-mailmap: one non-UTF-8 key makes the vector order inconsistent
+   (B < Z\xff < a by raw bytes, a < B case-folded) and the binary search for the valid key `b`
+   misses the entry `B`: even the NAME differs from git's, which theorem 6 excludes for UTF-8 keys *)
+Theorem resolve_is_git_refuted_mixed_order :
+  exists ens name email s, is_utf8 name = true /\ is_utf8 email = true
+    /\ snapshot_new ens = Ok s
+    /\ fst (resolve s name email) <> fst (g_map_user (git_map_of ens) name email).
+Proof.
+  exists [e_simple (bs "X") (bs "B"); e_simple (bs "Y") (bs "Z" ++ [xff]); e_simple (bs "W") (bs "a")],
+         (bs "n"), (bs "b"),
+         [mkEE (Some (bs "X")) None (bs "B") []; mkEE (Some (bs "Y")) None (bs "Z" ++ [xff]) [];
+          mkEE (Some (bs "W")) None (bs "a") []].
+  split; [reflexivity|]. split; [reflexivity|].
+  split; [vm_compute; reflexivity|]. vm_compute. discriminate.
+Qed.
+
+(* non-vacuity of the hypotheses *)
+Example en_ok_example :
+  Forall en_ok [mkEntry (Some (bs "Joe")) (Some (bs "n@x")) (Some (bs "J")) (bs "a@x"); e_simple (bs "A") (bs "b@x")]
+  /\ email_case_exact [e_simple (bs "A") (bs "b@x")] (bs "b@x").
+Proof.
+  split; [repeat constructor|]. intros en [<-|[]] _. reflexivity.
+Qed.
+Example resolve_example :
+  (let s := [mkEE (Some (bs "A")) None (bs "b@x") []] in resolve s (bs "x") (bs "b@x")) = (bs "A", bs "b@x").
+Proof. vm_compute. reflexivity. Qed.
